@@ -189,7 +189,7 @@ def check_C03(run):
         run.distinct.add((tid, vf.digest(v)))
         i += 1
     cmds += int_exhaustive_cmds(types, (1, 2) if thorough else (1,))
-    cmds = with_resets(cmds) + [{"c": "forms", "n": 72}]
+    cmds = with_resets(cmds) + [{"c": "forms", "n": 96}]
     run.samples = [c for c in cmds if c.get("c") == "w"][:3]
     run_codec(run, 'C03', cmds, mc=MC_WIRE)      # W3 (smallest class), W4 (size estimate) on the specification
     return vf.finish(run, rule='every pool type x boundary/random values (written twice) through rotating writer kinds; '
@@ -239,7 +239,7 @@ def check_C01(run):
                 groups.append([w, r])
                 run.distinct.add((tid, wk, rk, vf.digest(seq)))
             n += 1
-    cmds = with_group_resets(groups) + [{"c": "forms", "n": 72}]
+    cmds = with_group_resets(groups) + [{"c": "forms", "n": 96}]
     run.samples = groups[0][:2] + groups[len(groups) // 2][:2]
     run_codec(run, 'C01', cmds, mc=[MC_WIRE, mc_session(run)])
     return vf.finish(run, rule='every pool type x boundary/random values, 1-3 consecutive values per stream, writer/reader '
@@ -350,7 +350,7 @@ def check_C05(run):
     vts = [t for t in types if is_vpool(t)]
     n = 0
     for i, wt in enumerate(vts):
-        full = rep_value(types[wt], rng, i % 7)
+        full = rep_value(types[wt], rng, i % 7, big=(i % 4 == 1))
         nact = sum(1 for e in types[wt]["ents"] if e["act"])
         readers = vts if thorough and i % 8 == 0 else [vts[(i * 37 + 11 * j + 1) % len(vts)] for j in range(3)]
         for rt in readers:
@@ -397,7 +397,7 @@ def check_C06(run):
         if (tid, vf.digest(v)) not in run.distinct:
             cmds.append({"c": "wcaps", "tid": tid, "v": v, "wks": [], "extra": 0})
             run.distinct.add((tid, vf.digest(v)))
-    cmds = with_resets(cmds, 6) + [{"c": "forms", "n": 72}]
+    cmds = with_resets(cmds, 6) + [{"c": "forms", "n": 96}]
     run.samples = [c for c in cmds if c.get("c") == "wcaps"][:3]
     run_codec(run, 'C06', cmds, mc=MC_WIRE)
     return vf.finish(run, rule='every pool type x values x every capacity 0..GetSize+2 x {BufferWriter, PedanticBufferWriter, '
@@ -426,8 +426,13 @@ def check_C10(run):
             wk = ["pedantic", "sstream", {"bounded": "pedantic", "limit": BIGCAP}][i % 3]
             rk = ["pedantic", "sstream", {"bounded": "buffer", "limit": BIGCAP}][i % 3]
             w = {"c": "w", "wk": "pedantic", "cap": BIGCAP, "items": [{"tid": tid, "v": v}], "nolog": 1}
-            rf = {"c": "rfaults", "tid": tid, "rk": rk, "src": "last", "codes": R_CODES + ([8] if has_kind(S, ("hnd",)) else [])}
-            wf = {"c": "wfaults", "tid": tid, "v": v, "wk": wk, "cap": 4096, "codes": W_CODES}
+            # the codes a primitive usually returns, plus two of all the others in rotation (a code singled out for
+            # special treatment must not pass); handle transfers are tried with every code
+            allc = list(range(1, 19))
+            extra = [allc[(7 * len(groups) + 3 * i) % 18], allc[(11 * len(groups) + 5 * i + 9) % 18]]
+            hnd = has_kind(S, ("hnd",))
+            rf = {"c": "rfaults", "tid": tid, "rk": rk, "src": "last", "codes": allc if hnd else sorted(set(R_CODES + extra))}
+            wf = {"c": "wfaults", "tid": tid, "v": v, "wk": wk, "cap": 4096, "codes": allc if hnd else sorted(set(W_CODES + extra))}
             handle_opts(S, w, rf)
             handle_opts(S, wf)
             groups.append([w, rf, wf])
@@ -443,6 +448,8 @@ def check_C10(run):
     gen = vals.Gen(seed=run.seed, nrandom=1)
     rcmds = []
     for iname, I in ifaces.items():
+        if iname == "calcpipe":
+            continue
         for m in I["methods"]:
             void = m["ret"].get("k") == "void"
             if not m["bound"] and not void:
@@ -469,6 +476,30 @@ def check_C10(run):
 # C11 prior contents
 
 
+def vshape(v):
+    """Which alternative / emptiness pattern a value has (not its contents)."""
+    if isinstance(v, dict):
+        if "o" in v:
+            return "opt:" + ("some(" + vshape(v["o"][0]) + ")" if v["o"] else "none")
+        if "r" in v:
+            return "res:" + v["r"]
+        if "i" in v:
+            return "var:" + str(v["i"])
+        if "t" in v:
+            return "tab:" + ''.join('1' if e.get("p") else '0' for e in v["t"])
+        if "n" in v:
+            return "seq:" + ("n" if v["n"] else "0")
+        if "kv" in v:
+            return "map:" + ("n" if v["kv"] else "0")
+        if "m" in v:
+            return "m(" + ",".join(vshape(x) for x in v["m"]) + ")"
+        if "b" in v:
+            return "str:" + ("n" if v["b"] else "0")
+        if "h" in v:
+            return "hnd:" + ("none" if v["h"] == [255] * 8 else "some")
+    return "w"
+
+
 def check_C11(run):
     exe, types_path = vf.get_exe(run, 'asan')
     types = load_types(types_path)
@@ -482,9 +513,17 @@ def check_C11(run):
         S = types[tid]
         if S["k"] in ("ref",):
             continue
+        # sum types (Optional / Result / Variant / tables ...) have few value *shapes*: every shape is read over every
+        # shape; for the rest a sample
+        by_shape = {}
+        for x in vs:
+            by_shape.setdefault(vshape(x), x)
+        reps = list(by_shape.values())[:8]
         chosen = pick(vs, 12 if thorough else 4, rng)
+        chosen += [x for x in reps if x not in chosen]
         for i, v in enumerate(chosen):
             priors = pick(vs, 10 if thorough else 3, rng)
+            priors += [x for x in reps if x not in priors]
             w = {"c": "w", "wk": "pedantic", "cap": BIGCAP, "items": [{"tid": tid, "v": v}], "nolog": 1}
             fresh = {"c": "r", "rk": "pedantic", "src": "last", "items": [{"tid": tid}], "nolog": 1}
             handle_opts(S, w, fresh)
@@ -1234,21 +1273,22 @@ def is_vpool(tid):
     return tid.startswith('TV_')
 
 
-def rep_value(S, rng=None, k=0):
-    """A representative value (vector entries hold exactly as many elements as their array spelling)."""
+def rep_value(S, rng=None, k=0, big=False):
+    """A representative value (vector entries hold exactly as many elements as their array spelling). big: strings of
+    130 characters and integers in the widest class, so that entry sizes (also of nested tables) cross 127/128 bytes."""
     kd = S["k"]
     if kd in ("int", "enum"):
-        return word(200 + k, S["w"])
+        return word(((1 << (8 * S["w"] - 1)) - 1 - k) if big else 200 + k, S["w"])
     if kd == "str":
-        return {"cw": S["cw"], "b": [71 + (k % 5), 105] * 1}
+        return {"cw": S["cw"], "b": [b for i in range(130 if big else 1) for b in word(71 + ((k + i) % 5), S["cw"]) + word(105, S["cw"])][:(130 if big else 2) * S["cw"]]}
     if kd == "vec":
-        return {"n": [rep_value(S["e"], rng, k + i) for i in range(2)]}
+        return {"n": [rep_value(S["e"], rng, k + i, big) for i in range(2)]}
     if kd == "arr":
-        return {"n": [rep_value(S["e"], rng, k + i) for i in range(S["n"])]}
+        return {"n": [rep_value(S["e"], rng, k + i, big) for i in range(S["n"])]}
     if kd in ("struct", "tup", "pair"):
-        return {"m": [rep_value(m, rng, k + i) for i, m in enumerate(S["m"])]}
+        return {"m": [rep_value(m, rng, k + i, big) for i, m in enumerate(S["m"])]}
     if kd == "table":
-        return {"t": [({"id": e["id"], "p": True, "v": rep_value(e["e"], rng, k + i)} if e["act"] else {"id": e["id"], "p": False})
+        return {"t": [({"id": e["id"], "p": True, "v": rep_value(e["e"], rng, k + i, big)} if e["act"] else {"id": e["id"], "p": False})
                       for i, e in enumerate(S["ents"])]}
     raise ValueError(kd)
 
@@ -1283,10 +1323,13 @@ def check_C07(run):
     fulls = {t: rep_value(types[t], rng, 3) for t in vts}
     for wt in vts:
         S = types[wt]
-        full = rep_value(S, rng, n % 7)
+        full_small = rep_value(S, rng, n % 7)
+        full_big = rep_value(S, rng, n % 5, big=True)
         nact = sum(1 for e in S["ents"] if e["act"])
         allbits = list(range(1 << nact))
-        for rt in vts:
+        for ri, rt in enumerate(vts):
+            # every fifth reader gets the writer's large value (entry sizes and nested table sizes above 127 bytes)
+            full = full_big if ri % 5 == 2 else full_small
             if thorough:
                 bits = allbits
             else:
@@ -1479,10 +1522,53 @@ def rpc_ifaces():
             meth("Scale", tup(i32, i64), i64, calls=["Scale", "ScaleU8U32", "ScaleI16I8"],
                  cargs={"ScaleU8U32": tup(u8, u32), "ScaleI16I8": tup(i16, i8)}),
             meth("Notify", tup(s8, {"k": "vec", "e": u32}), {"k": "void"}, bound=False)]},
+        # the same interface as served by the two-thread pipe transport (fewer handlers are bound there)
+        "calcpipe": {"name": _b("io.verif.Calc"), "namestr": "io.verif.Calc", "width": 8, "methods": [
+            meth("Sum", tup(i32, i32), i32), meth("Concat", tup(s8, s8), s8),
+            meth("Echo", tup(vu8), vu8, calls=["Echo", "EchoArr"]),
+            meth("Stats", tup(point, {"k": "opt", "e": i32}), point, bound=False), meth("Choose", tup(ios), ios, bound=False),
+            meth("Div", tup(i32, i32), {"k": "res", "err": diverr, "e": i32}),
+            meth("Unbound", tup(i32), i32, bound=False),
+            meth("Seek", tup(i64), i64, calls=["Seek", "SeekU32"], cargs={"SeekU32": tup(u32)})]},
         "small": {"name": _b("io.verif.Small"), "namestr": "io.verif.Small", "width": 4, "methods": [
             meth("Inc", tup(u8), u8), meth("Name", tup(), s8),
             meth("Fixed", tup(u16, u16), u16, sel=word(42, 4)), meth("Other", tup(u8), u8, bound=False)]},
     }
+
+
+def rpc_pipe_cmds(rng, count, nrandom=1):
+    """Two threads over real pipes (FdWriter / FdReader): call sequences on one connection, ended by a request the
+    dispatcher refuses (unbound method, raw garbage) or by the caller closing."""
+    P = rpc_ifaces()["calcpipe"]
+    gen = vals.Gen(seed=rng.randrange(1 << 30), nrandom=nrandom)
+    pvals = {}
+    for m in P["methods"]:
+        for cn in m["calls"]:
+            pvals[cn] = gen.values(m.get("cargs", {}).get(cn, m["args"]))
+            if cn == "EchoArr":
+                pvals[cn] = [{"m": [{"n": [[(5 * i + j) % 256] for j in range(3)]}]} for i in range(3)]
+    good_names = [cn for m in P["methods"] if m["bound"] for cn in m["calls"]]
+    bad_names = [cn for m in P["methods"] if not m["bound"] and m["label"] != "Choose" for cn in m["calls"]]
+    out = []
+    for k in range(count):
+        seq = []
+        for _ in range(rng.randrange(1, 7)):
+            cn = rng.choice(good_names)
+            seq.append({"m": cn, "args": rng.choice(pvals[cn])})
+        end = k % 3
+        if end == 1:
+            cn = rng.choice(bad_names)
+            seq.append({"m": cn, "args": rng.choice(pvals[cn])})
+        elif end == 2:
+            seq.append({"m": "Raw", "raw": rng.choice([[0x83, 1, 2, 3, 4, 5, 6, 7, 8, 0xba, 0], [0xff], [0x84, 1], [0x00, 0xba, 2, 1, 2]])})
+        out.append({"c": "rpc", "iface": "calcpipe", "transport": "pipe", "calls": seq})
+    return out
+
+
+def key_rpc19(ev, why, cmd=None):
+    if ev.get("e") != "RPC":
+        return abnormal_key('C19', ev, why, cmd)
+    return 'C19|RPC|pipe|%s' % ','.join(why), 'caller and dispatcher threads over pipes violate: %s (command %s)' % (', '.join(why), ev.get("idx"))
 
 
 def key_rpc(ev, why, cmd=None):
@@ -1503,7 +1589,10 @@ def check_C14(run):
         json.dump(ifaces, f)
     gen = vals.Gen(seed=run.seed, nrandom=12 if thorough else 1)
     cmds = []
+    cmds += rpc_pipe_cmds(rng, 300 if thorough else 60, nrandom=12 if thorough else 1)
     for iname, I in ifaces.items():
+        if iname == "calcpipe":
+            continue
         argvals = {}
         for m in I["methods"]:
             for cn in m["calls"]:
@@ -1533,6 +1622,16 @@ def check_C14(run):
                                      "calls": [{"m": cn, "args": v, "mut": [{"op": "set", "at": pos, "val": hb}]}, good]})
                 # two requests delivered back to back: the dispatcher must consume exactly its own
                 cmds.append({"c": "rpc", "iface": iname, "calls": [{"m": cn, "args": v, "mut": [{"op": "append", "b": [1, 2, 3]}]}]})
+        # (2b) something fails underneath at any primitive of any of the four pipe ends: success must still mean a
+        # whole reply and the handler's return value
+        for cn in names:
+            m = [x for x in I["methods"] if cn in x["calls"]][0]
+            if not m["bound"]:
+                continue
+            v = argvals[cn][len(cn) % len(argvals[cn])]
+            for on in ("reqw", "repr", "reqr", "repw"):
+                for k in range(1, 13 if thorough else 9):
+                    cmds.append({"c": "rpc", "iface": iname, "calls": [{"m": cn, "args": v, "fault": {"on": on, "k": k, "e": 14 if k % 2 else 16}}]})
         # (3) raw requests: arbitrary selectors (unbound, wrong class, truncated)
         for _ in range(60 if thorough else 20):
             sel = rng.choice([[0], [42], [0x83] + [rng.randrange(256) for _ in range(8)], [0x82] + [rng.randrange(256) for _ in range(4)],
@@ -1549,7 +1648,8 @@ def check_C14(run):
                                'method bindings, partial bindings, scalars/strings/containers/structures/variants/Result returns, a '
                                'fungible argument substitution) x call sequences of 1-4 calls with boundary arguments x every '
                                'truncation and single-byte corruption of a request x raw requests with unbound/ill-formed '
-                               'selectors, end to end over a loopback transport; distinct = distinct call sequences')
+                               'selectors, end to end over a loopback transport; call sequences between two threads over real pipes '
+                               '(FdWriter / FdReader) ended by a refused request; distinct = distinct call sequences')
 
 
 # ===========================================================================
@@ -1655,11 +1755,24 @@ def check_C19(run):
                              env={"TSAN_OPTIONS": "halt_on_error=1 exitcode=66 report_signal_unsafe=0"})
     rejected = vf.tlc_validate(run, 'TrThreads', 'TrCodec.cfg', trace, {"PROP": "C19", "TYPES": types_path, "IFACES": ipath})
     add_rejections(run, rejected, key_tl, index_cmds(cmds))
+    # the one piece of state every reader / writer shares with the rest of the process is the descriptor table: an
+    # FdReader / FdWriter must close only the descriptor it owns, exactly once (otherwise it closes a number that another
+    # thread's object may have been given in the meantime). Ownership histories from the UniqueHandle machine of
+    # Lifetimes.tla, the descriptor table as the observation (TrObj.tla FFold).
+    fcmds = with_resets(life_cmds(run, [("uhandle", ["fdreader", "fdwriter"])], thorough, rng), 100)
+    run_obj(run, 'C19', fcmds, 'plain')
+    # caller and dispatcher as two threads over real pipes, under ThreadSanitizer
+    pcmds = [c for c in rpc_pipe_cmds(rng, 200 if thorough else 40)]
+    ptrace = vf.exec_commands(run, exe, with_resets(pcmds, 40), 'c19pipe', per_cmd_timeout=60,
+                              env={"TSAN_OPTIONS": "halt_on_error=1 exitcode=66 report_signal_unsafe=0"})
+    rejected = vf.tlc_validate(run, 'TrRpc', 'TrCodec.cfg', ptrace, {"PROP": "C19", "IFACES": ipath})
+    add_rejections(run, rejected, key_rpc19, index_cmds(with_resets(pcmds, 40)))
     return vf.finish(run, rule='TLC-enumerated interleavings (MC_Threads: 2 threads exhaustively, 3 threads in the thorough tier) of '
                                'ThreadLocal Initialize/Get/Set/Clear programs replayed by real threads in lock step, plus 4-16 '
                                'free-running threads doing ThreadLocal operations on shared slot types, serializer round trips, RPC '
                                'connections and reader/writer call sequences (thread-specific padding values) on their own objects; '
-                               'ThreadSanitizer build: a report is a Race event; distinct = distinct commands')
+                               'caller / dispatcher thread pairs over real pipes; descriptor ownership histories of FdReader / '
+                               'FdWriter (no descriptor closed twice); ThreadSanitizer build: a report is a Race event; distinct = distinct commands')
 
 
 def replay(run, path):
